@@ -389,12 +389,20 @@ class DataLoader(object):
         if message_types is None or len(message_types) == 0:
             message_types = list(message_type_to_class.keys())
 
+        # max_messages and time alignment apply across all requested message types, so the data stored for one type
+        # depends on which other types were requested with it. In that case the set of types is part of the cache key.
+        across_types = max_messages is not None or time_align != TimeAlignmentMode.NONE
+        params['message_types'] = set(message_types) if across_types else None
+
         # If any of the requested types were already read from the file for the requested parameters, skip them.
         if ignore_cache:
             needed_message_types = set(message_types)
         else:
             needed_message_types = [t for t in message_types
                                     if (t not in self.data or self.data[t].params != params)]
+            # If the result applies across types and any part of it is missing, read all of it again.
+            if across_types and len(needed_message_types) > 0:
+                needed_message_types = message_types
             needed_message_types = set(needed_message_types)
 
         # Make cache entries for the messages to be read.
